@@ -3,7 +3,7 @@ C13 (service slice) — the end block of the service scheduler never halts and h
 queue entry exactly once; queue entries and the contexts awaiting them correspond.
 Headline theorems about the model `Irismod.Service` (every state, every operation, every history).
 -/
-import Irismod.Proofs.ServiceQueue
+import Irismod.Proofs.ServiceNoStale
 
 namespace Irismod.Props.C13S
 open Irismod Irismod.Sdk Irismod.Service Irismod.Spec.C13S Irismod.Proofs.Service
@@ -134,5 +134,54 @@ theorem new_batch_entries_processed (s : State) (e : Int × CtxId) (h : e ∈ (n
 theorem new_batch_removes_exactly_its_entry (s : State) (id : CtxId) :
     (newBatch s id).newQ = s.newQ.filter (fun y => decide (y ≠ (s.height, id))) :=
   newBatch_newQ s id
+
+/-! ### no entry is ever in the past -/
+
+/-- module-level entry points are used the way the code base uses them (a module context is created under a
+module name, so `ValidateRequest` runs; a keeper-level update carries a non-negative timeout) -/
+def ValidatedHistory (ops : List Op) : Prop := ∀ op ∈ ops, opValidated op
+
+theorem ns_empty {s : State} (e : EmptySched s) : NS s := by
+  refine ⟨wf_empty e, ?_, ?_⟩
+  · intro id c h; rw [e.ctxs] at h; simp [AMap.get?] at h
+  · constructor
+    · intro h id hm; rw [e.newQ] at hm; cases hm
+    · intro h id hm; rw [e.expQ] at hm; cases hm
+
+theorem ns_apply {s : State} {op : Op} (hs : NS s) (hf : FreshOp { s with cb := [] } op) (hv : opValidated op) :
+    NS (apply s op) := by
+  unfold apply step
+  have h0 : NS { s with cb := [] } :=
+    ⟨hs.1.of_same ⟨rfl, rfl, rfl, rfl, rfl, rfl, rfl⟩, (CQ.of_same (s' := { s with cb := [] }) hs.2 rfl rfl rfl rfl).1,
+     (CQ.of_same (s' := { s with cb := [] }) hs.2 rfl rfl rfl rfl).2⟩
+  cases h : stepCore { s with cb := [] } op with
+  | ok s' => exact NS_stepCore h0 hf hv h
+  | error e => exact h0
+
+theorem ns_run : ∀ (ops : List Op) (s : State), NS s → FreshRun s ops → ValidatedHistory ops → NS (run s ops)
+  | [], _, hs, _, _ => hs
+  | op :: rest, s, hs, hf, hv =>
+    ns_run rest (apply s op) (ns_apply hs hf.1 (hv op (List.mem_cons_self ..))) hf.2
+      (fun o ho => hv o (List.mem_cons_of_mem _ ho))
+
+/-- **no stale entries, after every history**: every new-batch and expired-batch entry is for the current
+block or a later one, so the end blocker will meet it (the statement F-svc-3 used to refute for the new-batch
+queue; holds since /repo f0f40e8) -/
+theorem no_stale_entries (s : State) (e : EmptySched s) (ops : List Op) (hf : FreshRun s ops) (hv : ValidatedHistory ops) :
+    NoStale (run s ops) :=
+  (ns_run ops s (ns_empty e) hf hv).2.2
+
+/-- stored contexts always have a positive timeout, and a frequency of at least the timeout when repeated -/
+theorem contexts_well_timed (s : State) (e : EmptySched s) (ops : List Op) (hf : FreshRun s ops) (hv : ValidatedHistory ops)
+    (id : CtxId) (c : Ctx) (hg : AMap.get? (run s ops).ctxs id = some c) :
+    0 < c.timeout ∧ (c.repeated = true → c.timeout ≤ (c.freq : Int)) :=
+  (ns_run ops s (ns_empty e) hf hv).2.1 id c hg
+
+/-- the end blocker leaves only entries of later blocks: everything due now has been handled, and whatever
+the handlers queue (next batch of a repeated context, expiration of a new batch) lies strictly ahead -/
+theorem end_block_leaves_only_future_entries {s : State} (hs : NS s) :
+    (∀ h id, (h, id) ∈ (endBlock s).newQ → s.height < h) ∧ (∀ h id, (h, id) ∈ (endBlock s).expQ → s.height < h) := by
+  obtain ⟨_, e2, e3⟩ := endBlock_stale hs.1 hs.2.1 ((noStale_iff s).mp hs.2.2)
+  exact ⟨fun h id hm => e2 (h, id) hm, fun h id hm => e3 (h, id) hm⟩
 
 end Irismod.Props.C13S
